@@ -80,7 +80,8 @@ structure Cfg where
 /-- mutable part + environment oracles + trace -/
 structure St where
   state : SState := .new
-  connected : Bool := true
+  connected : Bool := true   -- `transport.Connected()`
+  held : Bool := true        -- the local end of the connection is still open (not yet `Close`d)
   enc : Opt := cs!"none"
   comp : Opt := cs!"none"
   remote : Node := Node.zero
@@ -124,7 +125,7 @@ def recvSession (c : Cfg) (s : St) : Option Ses × St :=
     | [] => (none, markEof c s)                -- script exhausted: the peer went away
     | x :: r => recvItem c s x r
 
-def closeT (s : St) : St := ({ s with connected := false }).log .close
+def closeT (s : St) : St := ({ s with connected := false, held := false }).log .close
 
 /-- `ServerChannel.FailSession`; the Boolean is `err == nil` -/
 def failSession (c : Cfg) (s : St) : Bool × St :=
@@ -264,6 +265,24 @@ def establish (c : Cfg) (s : St) : Bool × St :=
     let r := if ses.state = .new then newBlock c q.2 else (true, q.2)
     if !r.1 then (false, r.2) else
     if r.2.state ≠ .established ∧ r.2.state ≠ .failed ∧ r.2.connected then failSession c r.2 else (true, r.2)
+
+/-- callbacks of the serving layer -/
+inductive CbEv | established | finished
+  deriving DecidableEq, Repr
+
+/-- `channel.Close()`: the receiver is stopped and the local end of the connection is released,
+also when the peer already went away (`Connected()` false but the socket still held) -/
+def channelClose (s : St) : St := if s.held then closeT s else s
+
+/-- `Server.handleChannel` up to the point where the session is served: a connection whose
+handshake returned an error, or was answered with a failed session, is released and no callback
+is invoked; otherwise the `Established` callback runs, the session is served (not modelled here)
+and the `Finished` callback runs afterwards. -/
+def handleChannel (c : Cfg) (s : St) : List CbEv × St :=
+  let r := establish c s
+  if !r.1 then ([], channelClose r.2)
+  else if !(r.2.state = .established ∧ r.2.connected) then ([], channelClose r.2)
+  else ([.established, .finished], r.2)
 
 structure Result where
   trace : List Ev          -- oldest first
